@@ -1097,6 +1097,12 @@ StylesheetExecutionContextDefault::beginCreateXResultTreeFrag(XalanNode*    sour
 
     pushOutputContext(theFormatter);
 
+    // The fragment is a tree of its own, so any kind of node can be
+    // created in it, even if the variable is being evaluated while the
+    // content of an attribute, comment or processing instruction, where
+    // only text nodes are allowed, is instantiated.
+    pushCopyTextNodesOnly(false);
+
     theFormatter->startDocument();
 
     pushCurrentNode(sourceNode);
@@ -1125,6 +1131,7 @@ StylesheetExecutionContextDefault::endCreateXResultTreeFrag()
     theXResultTreeFrag->setExecutionContext(this);
 
     popCurrentNode();
+    popCopyTextNodesOnly();
     popOutputContext();
 
     m_formatterToSourceTreeStack.release();
